@@ -118,7 +118,7 @@ Proof.
   - cbn [forallb] in Hn. apply andb_true_iff in Hn as [Ht Hr]. cbn [flat_map collapse_t].
     destruct (tok_ws t) eqn:E.
     + destruct (fmt_ws t E) as (c & Eg & Hc). rewrite Eg. cbn [app collapse]. rewrite Hc.
-      assert (Enl : (c =? 10) = tok_nl t).
+      assert (Enl : is_nl c = tok_nl t).
       { destruct t as [c'|nm]; [|discriminate]. cbn [tok_fmt] in Eg. cbn in E.
         rewrite (ws_not_pct c' E) in Eg. injection Eg as ->. reflexivity. }
       rewrite Enl. specialize (IH (t :: run) (nl || tok_nl t)). cbn [flat_map] in IH. rewrite Eg in IH.
